@@ -821,7 +821,17 @@ class Grammar_fuzz(Contract):
         cx.ghost["case"] = case
         return a
 
+    # call-site direction: a new detached tree for the start symbol
+    def may_raise(self, cx, a):
+        return [("FandangoValueError", None)]
+
+    def fresh_result(self, cx, a):
+        start = a["start"]
+        return tree_contracts.plain_tree(cx, "fuzzed", fresh=True, symbol_obj=start if isinstance(start, SObj) else None)
+
     def ensures(self, cx, a, r):
+        if cx.ghost.get("call_site"):
+            return []
         words = cx.ghost.get("fuzz_words", [])
         if not (isinstance(r, SObj) and r.cls == "DerivationTree" and len(words) == 1):
             raise Unsupported("Grammar.fuzz: the result is not read off one fuzz() call of a start node in a form the contract can read")
@@ -831,3 +841,133 @@ class Grammar_fuzz(Contract):
         out.append(("result_is_the_appended_derivation", And(z3.Length(w) == 1, r.ident == w[0])))
         out.append(("result_is_detached", z3.BoolVal(r.fields.get("_parent") is None)))
         return out
+
+
+# ------------------------------------------------------------------------------------------------ Grammar.generate (C16)
+
+GenSources = z3.Function("GeneratorArguments", I, I, IS, IS)      # (grammar, symbol, parameters) -> the argument trees actually used
+GenValue = z3.Function("GeneratorValue", I, I, IS, I)             # identity of the value the generator expression returned
+ParseOf = z3.Function("ParseOf", I, I, I, I)                      # (grammar, value, start symbol) -> identity of the parse tree
+ParseFails = z3.Function("ParseFails", I, I, I, B)
+
+
+@register
+class Grammar_generate_string(Contract):
+    """assumed: evaluates the generator expression of `symbol` on the given parameter trees; returns (argument trees used, value)"""
+    target = f"{GRAMMAR}:Grammar.generate_string"
+    trusted = True
+
+    def may_raise(self, cx, a):
+        return [("FandangoValueError", None), ("ValueError", None), ("Exception", None)]
+
+    def fresh_result(self, cx, a):
+        g, sym = a["self"], a["symbol"]
+        params = a["sources"]
+        pseq = kids_seq(SObj("tmp", {"_children": params})) if isinstance(params, SList) else EMPTY
+        if pseq is None:
+            raise Unsupported("generate_string with parameters that are not a sequence of trees")
+        used = kids_list(cx, GenSources(g.ident, sym.ident, pseq), "generator_arguments")
+        kind = cx.ghost.get("value_kind", "text")
+        val = SOpaque("generator_value", ident=GenValue(g.ident, sym.ident, pseq))
+        names = {"text": ("str",), "tuple": ("tuple",), "other": ()}[kind]
+        val.attrs["isinstance"] = lambda n, names=names: n in names
+        cx.ghost["generator_value"] = val
+        cx.ghost["generator_arguments"] = used
+        return (used, val)
+
+
+@register
+class Grammar_parse(Contract):
+    """assumed (C04): parse returns None or a tree for the start symbol, as a function of grammar, input and start symbol"""
+    target = f"{GRAMMAR}:Grammar.parse"
+    trusted = True
+
+    def fresh_result(self, cx, a):
+        g, word, start = a["self"], a["word"], a["start"]
+        if isinstance(start, str):          # the default "<start>" / a symbol given by name
+            import zlib
+            start = nonterminal_symbol(cx, f"NonTerminal({start!r})", z3.IntVal(zlib.crc32(start.encode()) + 10 ** 6))
+        wid = word.ident if getattr(word, "ident", None) is not None else cx.const("parsed_word", I)
+        cx.ghost.setdefault("parse_calls", []).append((word, start))
+        if cx.branch(ParseFails(g.ident, wid, start.ident), "parse-finds-no-tree"):
+            cx.ghost["parse_result"] = None
+            return None
+        t = tree_contracts.plain_tree(cx, "parsed", fresh=True, symbol_obj=start)
+        cx.assume(t.ident == ParseOf(g.ident, wid, start.ident))
+        cx.ghost["parse_result"] = t
+        return t
+
+
+@register
+class Tree_from_tree(Contract):
+    """assumed: builds a tree from a (symbol, children) tuple (deprecated generator return shape)"""
+    target = "language/tree.py:DerivationTree.from_tree"
+    trusted = True
+
+    def fresh_result(self, cx, a):
+        return tree_contracts.plain_tree(cx, "from_tuple", fresh=True)
+
+
+@register
+class Tree_str(Contract):
+    """assumed: str(tree) is a function of the tree"""
+    target = "language/tree.py:DerivationTree.__str__"
+    trusted = True
+
+    def fresh_result(self, cx, a):
+        s = SOpaque("str", ident=z3.Function("StrOfTree", I, I)(a["self"].ident))
+        s.attrs["isinstance"] = lambda n: n == "str"
+        return s
+
+
+@register
+class Grammar_generate_verified(Contract):
+    """C16: the tree returned for a generator rule is the parse, under the symbol, of the value the generator expression
+    returned; a value of the wrong type raises TypeError and a value that does not parse raises FandangoParseError --
+    nothing else is ever put in its place; the tree's sources are copies of the argument trees used."""
+    target = f"{GRAMMAR}:Grammar.generate"
+    key = f"{GRAMMAR}:Grammar.generate@verified"
+    properties = ("C16",)
+    float_mode = "real"
+    cases = ("text", "tuple", "other")
+
+    def inputs(self, cx, case):
+        g = grammar_obj(cx)
+        g.fields["generators"] = cx.opaque("generators")
+        cx.ghost["value_kind"] = case
+        cx.ghost["case"] = case
+        cx.ghost["inline_ok"] = set(tree_contracts.INLINE_OK)
+        return {"self": g, "symbol": nonterminal_symbol(cx, "symbol"), "sources": kids_list(cx, z3.Const("parameters", IS), "parameters")}
+
+    def ensures(self, cx, a, r):
+        case = cx.ghost["case"]
+        pr = cx.ghost.get("parse_result")
+        calls = cx.ghost.get("parse_calls", [])
+        out = [("a_value_of_another_type_never_yields_a_tree", z3.BoolVal(case != "other")),
+               ("returns_the_parse_of_the_generated_value", z3.BoolVal(pr is not None and r is pr)),
+               ("parsed_exactly_once_under_the_generator_symbol", z3.BoolVal(len(calls) == 1 and calls[0][1] is a["symbol"]))]
+        if calls and case == "text":
+            out.append(("the_parsed_input_is_the_generated_value", z3.BoolVal(calls[0][0] is cx.ghost.get("generator_value"))))
+        if isinstance(r, SObj):
+            srcs = r.fields.get("_sources")
+            used = cx.ghost.get("generator_arguments")
+            if isinstance(srcs, SList) and "seq" in srcs.ghost:
+                # a list of pre-existing trees (e.g. the argument trees themselves): readable, and not copies
+                return out + [("sources_are_deep_copies_of_the_argument_trees", z3.BoolVal(False))]
+            ok = isinstance(srcs, SList) and used is not None and srcs.ghost.get("rec_cls") == "DerivationTree"
+            if not ok:
+                raise Unsupported("the sources of the result are not a comprehension over the argument trees the contract can read")
+            out.append(("one_source_per_argument_tree", to_term_int(srcs.length) == z3.Length(used.ghost["seq"])))
+            copies = cx.ghost.get("deepcopies", [])
+            src_ident = copies[0][0].ident if len(copies) == 1 else None       # identity of the generic element that was copied
+            from_used = src_ident is not None and z3.is_app(src_ident) and src_ident.num_args() == 2 and z3.eq(src_ident.arg(0), used.ghost["seq"])
+            out.append(("sources_are_deep_copies_of_the_argument_trees", z3.BoolVal(bool(from_used))))
+        return out
+
+    def ensures_raise(self, cx, a, exc):
+        case = cx.ghost["case"]
+        if exc.cls == "TypeError":
+            return [("type_error_only_for_a_value_of_another_type", z3.BoolVal(case == "other"))]
+        if exc.cls == "FandangoParseError":
+            return [("parse_error_only_when_the_value_does_not_parse", z3.BoolVal("parse_result" in cx.ghost and cx.ghost["parse_result"] is None))]
+        return []
